@@ -260,6 +260,8 @@ def canon(t, closure_body=None, depth=0):
         name = t[1]
         args = [c(a) for a in t[2]]
         short = name.split("::")[-1]
+        if short in ("get_unchecked", "get_unchecked_mut", "index", "index_mut") and len(args) == 2:
+            return "%s[%s]" % (args[0], args[1])   # element access, checked or not
         pre = "p" if (PRIO_CMP_SITES and len(t) > 3 and t[3] and PRIO_CMP_SITES(t[3])) else ""
         if short in ("gt", "ge") and len(args) == 2 and ("PartialOrd" in name or "cmp" in name):
             return "%s%s(%s,%s)" % (pre, FLIP[short], args[1], args[0])
